@@ -11,6 +11,9 @@ use vcore::mc::{self, PanicInfo};
 pub enum Ev {
     Key(&'static str),
     Trace(TraceEv, usize),
+    /// A command, and a trace update that lands before the frontend next looks at the tracer (the
+    /// tracer thread wins the race between the key handler and the top of the `run_app` loop).
+    KeyTrace(&'static str, TraceEv, usize),
 }
 
 impl Ev {
@@ -18,6 +21,7 @@ impl Ev {
         match self {
             Ev::Key(k) => format!("key:{k}"),
             Ev::Trace(t, i) => format!("trace{i}:{t:?}"),
+            Ev::KeyTrace(k, t, i) => format!("key:{k}+trace{i}:{t:?}"),
         }
     }
 }
@@ -49,10 +53,14 @@ pub fn step(w: &mut World, ev: Option<Ev>, check: &mut dyn FnMut(&World, &mut Ve
                 w.press(k);
             }
             Ev::Trace(t, i) => w.trace_event(t, i),
+            Ev::KeyTrace(k, t, i) => {
+                w.press(k);
+                w.trace_event(t, i);
+            }
         });
         if let Err(p) = r {
             let phase = match ev {
-                Ev::Key(k) => format!("command:{k}"),
+                Ev::Key(k) | Ev::KeyTrace(k, ..) => format!("command:{k}"),
                 Ev::Trace(..) => "trace-update".to_string(),
             };
             fails.push(fail_panic(&phase, p));
